@@ -24,7 +24,7 @@ LEVEL = "fault_enumeration"
 ALPHABET = ["normal", "zero", "tiny", "huge", "overflow", "nan", "inf"]
 MODERATE = {"normal", "zero", "tiny", "huge"}
 RULE = ("fault enumeration: for each configuration in {failure threshold 0,1e-30,0.1,1e30} x {matrix epsilon 0,1e-6} x {Newton,eigh} "
-        "x {preconditioner interval 1,2} x {jit, pmap int16-quantised, sharded 2-device mesh} x {x64 on, off}, plus 72 configurations with all-1x1 statistics, a 64x64 statistic, or a padded 1x1 statistic among larger ones (ragged last block), plus 24 configurations with a 1600-entry leaf, plus 32 configurations with compressed / frequent-directions / LOBPCG-deflated / warm-started roots (thorough: x graft {SGD, RMSProp, normalised AdaGrad}), ALL words of length T "
+        "x {preconditioner interval 1,2} x {jit, pmap int16-quantised, sharded 2-device mesh} x {x64 on, off}, plus 72 configurations with all-1x1 statistics, a 64x64 statistic, or a padded 1x1 statistic among larger ones (ragged last block), plus 24 configurations with a 1600-entry leaf, plus 40 configurations with compressed / frequent-directions / LOBPCG-deflated (top-1, and top-2 after a single iteration) / warm-started roots, plus 12 with normalised grafting (thorough: x graft {SGD, RMSProp, normalised AdaGrad}), ALL words of length T "
         "(T=3 quick: 343 words, 399 steps; thorough T=5 restricted to <=3 non-normal letters) over the alphabet "
         "{normal, zero, tiny 1e-12, huge 1e12, overflow 1e30, NaN entry, +-Inf entry} are replayed through one compiled step; "
         "evaluations = words; a word is non-trivial when it contains a rejected root attempt or a poisoned (NaN/Inf/overflow) step; "
@@ -53,19 +53,25 @@ def all_configs(tier="quick"):
   # other statistic sizes: all-1x1 statistics (scalar root branch) and one 64x64 statistic (large reductions)
   for x64, mode, eigh, interval, tree in itertools.product([True, False], ["jit", "pmapq", "sharded"], [False, True], [1, 2], ["ones", "big", "ragged1"]):
     out.append({"x64": x64, "mode": mode, "thr": 0.1, "eps": 1e-6, "eigh": eigh, "interval": interval, "tree": tree})
+  # normalised grafting types in the quick tier too (zero gradients through g / (|g| + 1e-25))
+  if tier == "quick":
+    for x64, mode, graft in itertools.product([True, False], ["jit", "pmapq", "sharded"], [4, 6]):
+      out.append({"x64": x64, "mode": mode, "thr": 0.1, "eps": 1e-6, "eigh": False, "interval": 1, "graft": graft})
   # a leaf with 1600 entries: moderate (1e12) gradients have a norm above 3.4e13, where quotients by the 1e-25 guard overflow float32
   for x64, mode, eigh, eps in itertools.product([True, False], ["jit", "pmapq", "sharded"], [False, True], [0.0, 1e-6]):
     out.append({"x64": x64, "mode": mode, "thr": 0.1, "eps": eps, "eigh": eigh, "interval": 2, "tree": "large"})
   # other preconditioner representations / root routines: low-rank compressed, frequent-directions sketch, LOBPCG-deflated
   # Newton, warm-started (reuse_preconditioner); tree with statistics large enough for them
-  for x64, mode, interval, rep in itertools.product([True, False], ["jit", "sharded"], [1, 2], ["comp", "fd", "lobpcg", "reuse"]):
+  for x64, mode, interval, rep in itertools.product([True, False], ["jit", "sharded"], [1, 2], ["comp", "fd", "lobpcg", "lobpcg2", "reuse"]):
     if rep == "fd" and x64 and False:
       continue
-    out.append({"x64": x64, "mode": mode, "thr": 0.1, "eps": 1e-6, "eigh": False, "interval": interval, "tree": "wide", "rep": rep})
+    out.append({"x64": x64, "mode": mode, "thr": 0.1, "eps": 1e-6, "eigh": False, "interval": interval,
+                # LOBPCG: a square leaf, so both statistics are un-padded, full rank, and larger than 5k
+                "tree": {"lobpcg": "sq", "lobpcg2": "sq12"}.get(rep, "wide"), "rep": rep})
   return out
 
 
-TREES = {"wide": {"a": [8, 6], "b": [7]}, "large": {"a": [40, 40], "b": [3]},"default": {"a": [4, 3], "b": [5]}, "ones": {"a": [1], "b": [1, 1]}, "big": {"a": [64], "b": [3]},
+TREES = {"wide": {"a": [8, 6], "b": [7]}, "sq": {"a": [8, 8], "b": [7]}, "sq12": {"a": [12, 12], "b": [7]}, "large": {"a": [40, 40], "b": [3]},"default": {"a": [4, 3], "b": [5]}, "ones": {"a": [1], "b": [1, 1]}, "big": {"a": [64], "b": [3]},
          # ragged last block of size one: a padded 1x1 statistic among larger ones
          "ragged1": {"a": [9, 4], "b": [3]}}
 
@@ -123,6 +129,9 @@ def make_runner(c):
     cfg.update(compression_rank=1, frequent_directions=True, reuse_preconditioner=True, statistics_compute_steps=c["interval"])
   elif rep == "lobpcg":
     cfg["lobpcg_topk_precondition"] = 1
+  elif rep == "lobpcg2":
+    # two deflated directions after a single LOBPCG iteration: an inaccurate deflation that only the unconditioned error exposes
+    cfg.update(lobpcg_topk_precondition=2, lobpcg_max_iter=1)
   elif rep == "reuse":
     cfg["reuse_preconditioner"] = True
   params = {k: np.ones(tuple(s), np.float32) for k, s in tree_of(c).items()}
@@ -159,6 +168,22 @@ def check_step(c, word, t, pre, post, un, rec):
           rejected_here = True
         else:
           rec.count("accepts")
+      if changed and c["x64"] and c["mode"] != "pmapq" and not c.get("rep") in ("comp", "fd") and all(l == "normal" for l in word):
+        # "verified" is checked, not taken on trust: on fault-free prefixes (well-conditioned float64 roots) an installed root
+        # must satisfy the C01 residual oracle against the statistics stored in the same state
+        from vmon.monitors import c02
+        from vmon.refmodels import ds_ref
+        cfgr = ds_ref.Cfg(matrix_epsilon=c["eps"], relative_matrix_epsilon=True, eigh=c["eigh"], inverse_failure_threshold=thr)
+        S = b["stats"][i]
+        if S.shape[0] == S.shape[1] and np.all(np.isfinite(S)) and c["eps"] > 0 and err == err and err < min(thr, 0.1):
+          shape_k = tuple(tree[k])
+          pexp = 2 * len(shape_k)
+          msize = max(max(tuple(sh)) for sh in tree.values())
+          msg = c02.root_check(cfgr, S, P, err, float(m["retries"][i]), float(m["max_ev"][i]) if not c["eigh"] else None, pexp,
+                               max(x.shape[0] for kk in tree for x in post["params"][kk]["stats"]), False, rec)
+          rec.count("installed_roots_residual_checked")
+          if msg:
+            return ("installed-root-not-a-root:" + c["mode"], "preconditioner %s[%d] installed at step %d with reported error %g, but %s (word %s)" % (k, i, t, err, msg, "-".join(word)))
       if changed:
         rec.count("preconditioner_changes")
         if not refresh:
